@@ -263,7 +263,11 @@ PROPS = {
                     "reports growth, raises the caller's running class to at least the callee's TRANSITIVE class, and aborts on an unavailable callee.  "
                     "MAX REFERENCE (unit max_reference, the callee arm of compute_max_local_reference_stmt with its three noting loops cut out as "
                     "opaque calls): a call statement is noted as a possible reference of the function's locals in BOTH the callee's transitive "
-                    "capture reads and its transitive capture writes, and of every local of the function when no summary is available.  EXECUTION "
+                    "capture reads and its transitive capture writes, and of every local of the function when no summary is available.  LIVENESS (unit liveness_call, "
+                    "the callee loop of compute_block_facts): a call contributes the callee's transitive captured READS as uses (every local without "
+                    "a summary) and defines NOTHING -- captured writes of a callee are may-writes and never make an earlier store dead.  REMOVABILITY "
+                    "(K:opt:stmt_effective_class): a statement whose call assigns captured variables is impure, any statement that calls user code is "
+                    "at least may-trap.  EXECUTION "
                     "(unit block_exec): exec_block_with_flow skips exactly the statements the plan prunes -- every other statement of a block that "
                     "completes normally is executed, and no pruned one ever is."),
         "not_covered": ("soundness of the dataflow itself with respect to execution: liveness fix-point, compute_block_facts, summary "
